@@ -188,6 +188,59 @@ def q_roundtrip(task):
     return [_result(task, ex, 'discharged', nontrivial=okpaths > 0, extra=dict(length=Lb))]
 
 
+def q_engine_validation(task):
+    """validation of the IR executor itself (not a property obligation): the entry points are run with ALL inputs
+    concrete (reference bytes of a sample value) and the result is compared by the parent with the natively compiled
+    code on the same bytes.  Any difference is a machinery error (exit 2), never a violation."""
+    import random
+    name, e = task['shape'], task['e']
+    shape, src, v, ref, bm = _reference(task, e)
+    rnd = random.Random(task.get('seed', 0) * 7919 + len(ref))
+    model = {}
+    for var in src.vars:
+        model[var] = rnd.getrandbits(var.size())
+    # enum leaves must be declared enumerators: re-draw until the constraints hold (they are tiny disjunctions)
+    s = z3.Solver()
+    s.add(*src.constraints)
+    for var in src.vars:
+        s.push()
+        s.add(var == model[var])
+        if s.check() != z3.sat:
+            s.pop()
+        else:
+            s.pop()
+            s.add(var == model[var])
+    assert s.check() == z3.sat
+    m = s.model()
+    data = [m.eval(b, model_completion=True).as_long() for b in ref]
+    Lb = len(data)
+    mod, ex = _mk(task, max_visits=64)
+    try:
+        x, st = _new_message(mod, ex, name)
+        buf = ex.new_obj(Lb, 'input', writable=False)
+        for i, b in enumerate(data):
+            st.cmem[buf.base + i] = z3.BitVecVal(b, 8)
+        res = ex.run('@dec_%s_%s' % (name, e), [ex.ptr(x), ex.ptr(buf), L.Val(z3.BitVecVal(Lb, 64))], st)
+        if len(res) != 1 or res[0][2] is not None:
+            return [_result(task, ex, 'error', 'concrete run forked or faulted: %s' % (res[0][2].kind if res and res[0][2] else len(res)), extra=dict(input_hex=bytes(data).hex()))]
+        st2, rv, _ = res[0]
+        ok = z3.simplify(rv.e).as_long()
+        out_hex, gbs, w = None, None, None
+        if ok:
+            g = ex.run('@gbs_' + name, [ex.ptr(x)], st2.clone())
+            gbs = z3.simplify(g[0][1].e).as_long()
+            out = ex.new_obj(gbs + 8, 'output')
+            st_e = st2.clone()
+            for i in range(gbs + 8):
+                st_e.cmem[out.base + i] = z3.BitVecVal(0xAA, 8)
+            r3 = ex.run('@enc_%s_%s' % (name, e), [ex.ptr(x), ex.ptr(out)], st_e)
+            w = z3.simplify(r3[0][1].e).as_long()
+            out_hex = ''.join('%02x' % z3.simplify(ex.read8(r3[0][0], z3.BitVecVal(out.base + i, 64))).as_long() for i in range(w))
+    except L.Unsupported as u:
+        return [_result(task, ex, 'inconclusive', str(u)[:300])]
+    return [_result(task, ex, 'discharged', nontrivial=True, extra=dict(engine_validation=dict(input_hex=bytes(data).hex(), ok=ok, gbs=gbs, written=w, out=out_hex)))]
+
+
 def q_byteorder(task):
     """C19 (C++): encode<little>, encode<big>, encode<native> of one object (decoded from the little-endian reference):
     same length, scalars mirrored in place, padding zero, native == little on this host"""
